@@ -1,5 +1,6 @@
 import Model.Node
 import Gen.MinerFoundEffects
+import Gen.MinerRequestEffects
 
 /-!
 GenTie.MinerRule — `MinerWatcher.handle_scrypt_output_message` (up to the flush; what follows is bookkeeping of the miner's wallet
@@ -46,5 +47,36 @@ theorem model_miner_is_translated_effects (C : Crypto) (n : Node) (cs : CoinStat
       simp [okB3, runMinerEffect]
   · have hsol' : bytesLt ((Block.fresh ⟨s, ev⟩ txs).id C) (Block.fresh ⟨s, ev⟩ txs).target = false := by simpa using hsol
     simp [hsol', runMinerEffect]
+
+/-! ### the work request (`handle_request_scrypt_input_message`) -/
+
+/-- what the watcher holds while it serves a work request: the state it last read (`self.coinstate`), the pool it read with
+it, the clock value chosen for the candidate -/
+structure WatcherSt where
+  coinstate : CoinState
+  pool : List CTx
+  timestamp : Option Nat
+
+def runRequestEffect (served : ChainMgr) (clock : Nat) (w : WatcherSt) : String → WatcherSt
+  | "refresh_state" => { w with coinstate := served.coinstate, pool := served.pool }
+  | "timestamp_after_current_head" =>
+      { w with timestamp := (w.coinstate.head).map fun hd => max clock (hd.timestamp + 1) }
+  | _ => w
+
+/-- the statements of the request handler, in this order: the served state is read first, the candidate's timestamp is then taken
+from **that** state's head, the candidate is assembled from both, remembered and sent to the miner process -/
+theorem miner_request_order :
+    Gen.miner_request_effects =
+      (["refresh_state", "timestamp_after_current_head", "assemble", "remember_candidate", "send_input"], false) := by
+  first | rfl | decide
+
+/-- so the timestamp handed to the assembler is the model's `max clock (head.timestamp + 1)` for the head of the state the
+candidate is built on, whatever state the watcher held before the request -/
+theorem model_candidate_timestamp_is_translated (served : ChainMgr) (clock : Nat) (w₀ : WatcherSt) (hd : Block)
+    (hh : served.coinstate.head = some hd) :
+    let w := (Gen.miner_request_effects.1.take 2).foldl (runRequestEffect served clock) w₀
+    w.coinstate = served.coinstate ∧ w.pool = served.pool ∧ w.timestamp = some (max clock (hd.timestamp + 1)) := by
+  rw [miner_request_order]
+  simp [runRequestEffect, hh]
 
 end GenTie
